@@ -286,6 +286,127 @@ func runR112(c *Ctx) {
 	c.Check(pair["backendA"] == "replicatorBToA" && pair["backendB"] == "replicatorAToB", FuncName(fn), "direction", c.Pos(fn.Pos()), "reading A first repairs from B to A, and vice versa", "the replica consulted first is paired with the wrong replicator direction (the repair would copy into the replica that already has the object)")
 }
 
+// mirrorStage describes where a group of goroutines (the two FindMissing
+// calls, or the two ReplicateMultiple calls) lives: directly in FindMissing
+// or in a helper method it calls; guard is the call whose nil error means the
+// whole stage succeeded (the group's Wait, or the helper call).
+type mirrorStage struct {
+	guard       *ssa.Call
+	home        *ssa.Function
+	helperCall  *ssa.Call
+	cellBackend map[*ssa.Alloc]string
+	replArg     map[string]ssa.Value
+	relabel     map[string]bool
+	wrapped     map[string]bool
+	sites       map[string]*ssa.Call
+}
+
+func scanMirrorStage(c *Ctx, home *ssa.Function, method string) *mirrorStage {
+	st := &mirrorStage{home: home, cellBackend: map[*ssa.Alloc]string{}, replArg: map[string]ssa.Value{}, relabel: map[string]bool{}, wrapped: map[string]bool{}, sites: map[string]*ssa.Call{}}
+	gos := goClosures(home)
+	var group ssa.Value
+	for g, grp := range gos {
+		allInstrs(g, func(ins ssa.Instruction) {
+			cl, ok := ins.(*ssa.Call)
+			if !ok || !cl.Call.IsInvoke() || cl.Call.Method.Name() != method {
+				return
+			}
+			fld := recvFieldLoadName(g, cl.Call.Value)
+			if fld == "" {
+				return
+			}
+			group = grp
+			st.sites[fld] = cl
+			switch method {
+			case "FindMissing":
+				for _, r := range *cl.Referrers() {
+					ex, ok := r.(*ssa.Extract)
+					if !ok || ex.Index != 0 {
+						continue
+					}
+					for _, rr := range *ex.Referrers() {
+						if s2, ok := rr.(*ssa.Store); ok {
+							if fv, ok := s2.Addr.(*ssa.FreeVar); ok {
+								allInstrs(home, func(pi ssa.Instruction) {
+									if mc, ok := pi.(*ssa.MakeClosure); ok && mc.Fn == ssa.Value(g) {
+										for k, b := range mc.Bindings {
+											if g.FreeVars[k] == fv {
+												if al, ok := b.(*ssa.Alloc); ok {
+													st.cellBackend[al] = fld
+												}
+											}
+										}
+									}
+								})
+							}
+						}
+					}
+				}
+				for _, r := range returnsOf(g) {
+					if w, ok := r.Results[0].(*ssa.Call); ok && isPkgFuncCall(w.Common(), modPath+"/pkg/util", "StatusWrap") {
+						st.wrapped[fld] = true
+					}
+				}
+			case "ReplicateMultiple":
+				st.replArg[fld] = captureOrigin(g, cl.Call.Args[1])
+				allInstrs(g, func(i2 ssa.Instruction) {
+					if w, ok := i2.(*ssa.Call); ok && isPkgFuncCall(w.Common(), modPath+"/pkg/util", "StatusWrapWithCode") {
+						if k, ok := constInt(stripConv(w.Call.Args[1])); ok && k == 13 {
+							st.relabel[fld] = true
+						}
+					}
+				})
+			}
+		})
+	}
+	if group == nil {
+		return nil
+	}
+	allInstrs(home, func(ins ssa.Instruction) {
+		if cl, ok := ins.(*ssa.Call); ok && cl.Call.StaticCallee() != nil && cl.Call.StaticCallee().Name() == "Wait" && cl.Call.Args[0] == group {
+			st.guard = cl
+		}
+	})
+	return st
+}
+
+// findMirrorStage looks for the stage in fn itself, then in the same-receiver
+// helper methods fn calls.
+func findMirrorStage(c *Ctx, fn *ssa.Function, method string) *mirrorStage {
+	if st := scanMirrorStage(c, fn, method); st != nil && len(st.sites) > 0 {
+		return st
+	}
+	var found *mirrorStage
+	allInstrs(fn, func(ins ssa.Instruction) {
+		cl, ok := ins.(*ssa.Call)
+		if !ok || found != nil {
+			return
+		}
+		callee := cl.Call.StaticCallee()
+		if callee == nil || callee.Blocks == nil || callee.Signature.Recv() == nil || len(cl.Call.Args) == 0 || !isReceiverValue(fn, cl.Call.Args[0]) {
+			return
+		}
+		if st := scanMirrorStage(c, callee, method); st != nil && len(st.sites) > 0 {
+			// the helper must return its group's Wait error
+			okErr := false
+			if st.guard != nil {
+				for _, r := range returnsOf(callee) {
+					ei := errIndex(callee)
+					if ei >= 0 && isErrResultOf(r.Results[ei], st.guard) {
+						okErr = true
+					}
+				}
+			}
+			if okErr {
+				st.helperCall = cl
+				st.guard = cl
+				found = st
+			}
+		}
+	})
+	return found
+}
+
 func runR114(c *Ctx) {
 	fn := c.Method(mirroredRel, "mirroredBlobAccess", "FindMissing")
 	if fn == nil {
@@ -293,8 +414,6 @@ func runR114(c *Ctx) {
 		return
 	}
 	name := FuncName(fn)
-	gos := goClosures(fn)
-	// classify closures
 	var gdi *ssa.Call
 	allInstrs(fn, func(ins ssa.Instruction) {
 		if cl, ok := ins.(*ssa.Call); ok && isPkgFuncCall(cl.Common(), modPath+"/"+digestRel, "GetDifferenceAndIntersection") {
@@ -305,114 +424,80 @@ func runR114(c *Ctx) {
 		c.Fail(name, "difference", c.Pos(fn.Pos()), "the two answers are not compared with GetDifferenceAndIntersection")
 		return
 	}
-	// which cell is written from which backend
-	cellBackend := map[*ssa.Alloc]string{}
-	var fmGroup, repGroup ssa.Value
-	replArg := map[string]int{}
-	relabel := map[string]bool{}
-	for g, grp := range gos {
-		allInstrs(g, func(ins ssa.Instruction) {
-			cl, ok := ins.(*ssa.Call)
-			if !ok || !cl.Call.IsInvoke() {
-				return
+	find := findMirrorStage(c, fn, "FindMissing")
+	repl := findMirrorStage(c, fn, "ReplicateMultiple")
+	if find == nil || repl == nil {
+		c.Fail(name, "stages", c.Pos(fn.Pos()), "the parallel FindMissing stage or the parallel replication stage was not found")
+		return
+	}
+	for _, fld := range []string{"backendA", "backendB"} {
+		site := find.sites[fld]
+		if site == nil {
+			c.Fail(name, "backend-error", c.Pos(fn.Pos()), fld+" is not asked")
+			continue
+		}
+		c.Check(find.wrapped[fld], FuncName(site.Parent()), "backend-error", c.Pos(site.Pos()), "the backend's error is returned wrapped with its name", "a backend's FindMissing error is not returned wrapped with the backend's name")
+	}
+	// which backend's answer is an argument of GetDifferenceAndIntersection
+	argBackend := func(v ssa.Value) string {
+		if u, ok := v.(*ssa.UnOp); ok && u.Op == token.MUL {
+			if al, ok := u.X.(*ssa.Alloc); ok {
+				return find.cellBackend[al]
 			}
-			fld := recvFieldLoadName(g, cl.Call.Value)
-			switch cl.Call.Method.Name() {
-			case "FindMissing":
-				fmGroup = grp
-				// result stored into a captured cell
-				for _, r := range *cl.Referrers() {
-					ex, ok := r.(*ssa.Extract)
-					if !ok || ex.Index != 0 {
-						continue
-					}
-					for _, rr := range *ex.Referrers() {
-						if st, ok := rr.(*ssa.Store); ok {
-							if fv, ok := st.Addr.(*ssa.FreeVar); ok {
-								// bind to parent's alloc
-								allInstrs(fn, func(pi ssa.Instruction) {
-									if mc, ok := pi.(*ssa.MakeClosure); ok && mc.Fn == ssa.Value(g) {
-										for k, b := range mc.Bindings {
-											if g.FreeVars[k] == fv {
-												if al, ok := b.(*ssa.Alloc); ok {
-													cellBackend[al] = fld
-												}
-											}
-										}
-									}
-								})
+		}
+		if ex, ok := v.(*ssa.Extract); ok && find.helperCall != nil && ex.Tuple == ssa.Value(find.helperCall) {
+			for _, r := range returnsOf(find.home) {
+				if ex.Index < len(r.Results) {
+					if u, ok := r.Results[ex.Index].(*ssa.UnOp); ok && u.Op == token.MUL {
+						if al, ok := u.X.(*ssa.Alloc); ok {
+							if b := find.cellBackend[al]; b != "" {
+								return b
 							}
 						}
 					}
 				}
-				// error wrapped with backend name
-				wrapped := false
-				for _, r := range returnsOf(g) {
-					if w, ok := r.Results[0].(*ssa.Call); ok && isPkgFuncCall(w.Common(), modPath+"/pkg/util", "StatusWrap") {
-						wrapped = true
-					}
-				}
-				c.Check(wrapped, FuncName(g), "backend-error", c.Pos(cl.Pos()), "the backend's error is returned wrapped with its name", "a backend's FindMissing error is not returned wrapped with the backend's name")
-			case "ReplicateMultiple":
-				repGroup = grp
-				o := captureOrigin(g, cl.Call.Args[1])
-				if ex, ok := o.(*ssa.Extract); ok && ex.Tuple == ssa.Value(gdi) {
-					replArg[fld] = ex.Index
-				} else {
-					replArg[fld] = -1
-				}
-				// NOT_FOUND relabelled INTERNAL
-				allInstrs(g, func(i2 ssa.Instruction) {
-					if w, ok := i2.(*ssa.Call); ok && isPkgFuncCall(w.Common(), modPath+"/pkg/util", "StatusWrapWithCode") {
-						if k, ok := constInt(stripConv(w.Call.Args[1])); ok && k == 13 {
-							relabel[fld] = true
-						}
-					}
-				})
-			}
-		})
-	}
-	// arguments of GetDifferenceAndIntersection
-	argBackend := func(v ssa.Value) string {
-		if u, ok := v.(*ssa.UnOp); ok && u.Op == token.MUL {
-			if al, ok := u.X.(*ssa.Alloc); ok {
-				return cellBackend[al]
 			}
 		}
 		return ""
 	}
 	a0, a1 := argBackend(gdi.Call.Args[0]), argBackend(gdi.Call.Args[1])
-	okArgs := a0 == "backendA" && a1 == "backendB"
-	c.Check(okArgs, name, "difference", c.Pos(gdi.Pos()), "difference/intersection of backend A's and backend B's answers", "GetDifferenceAndIntersection is not applied to (A's answer, B's answer)")
-	// directions: only-A-missing (index 0) must be copied B->A; only-B-missing (index 2) A->B
-	okDir := replArg["replicatorBToA"] == 0 && replArg["replicatorAToB"] == 2
-	if a0 == "backendB" && a1 == "backendA" {
-		okDir = replArg["replicatorBToA"] == 2 && replArg["replicatorAToB"] == 0
+	okArgs := (a0 == "backendA" && a1 == "backendB") || (a0 == "backendB" && a1 == "backendA")
+	c.Check(okArgs, name, "difference", c.Pos(gdi.Pos()), "difference/intersection of backend A's and backend B's answers", "GetDifferenceAndIntersection is not applied to the two backends' answers")
+	// directions: the objects only the first argument's backend misses are index 0
+	idxOf := func(v ssa.Value) int {
+		if v == nil {
+			return -1
+		}
+		// when the replication stage lives in a helper, the argument is one of its parameters: map to the call's argument
+		if repl.helperCall != nil {
+			if p, ok := v.(*ssa.Parameter); ok {
+				for i, q := range repl.home.Params {
+					if q == p {
+						v = repl.helperCall.Call.Args[i]
+					}
+				}
+			}
+		}
+		if ex, ok := v.(*ssa.Extract); ok && ex.Tuple == ssa.Value(gdi) {
+			return ex.Index
+		}
+		return -1
 	}
+	onlyA, onlyB := 0, 2 // missing only from A / only from B when (a0,a1) = (A,B)
+	if a0 == "backendB" {
+		onlyA, onlyB = 2, 0
+	}
+	okDir := idxOf(repl.replArg["replicatorBToA"]) == onlyA && idxOf(repl.replArg["replicatorAToB"]) == onlyB
 	c.Check(okDir, name, "directions", c.Pos(gdi.Pos()), "objects only A misses are copied from B to A and objects only B misses from A to B", "the one-sided differences are handed to the wrong replicators (or not at all): objects held by exactly one replica are not copied to the other")
-	c.Check(relabel["replicatorAToB"] && relabel["replicatorBToA"], name, "relabel", c.Pos(gdi.Pos()), "a replicator's NOT_FOUND is reported as INTERNAL", "a replicator's NOT_FOUND is not relabelled INTERNAL: an inconsistent replica would look like a missing object")
-	// success returns
-	var fmWait, repWait *ssa.Call
-	allInstrs(fn, func(ins ssa.Instruction) {
-		cl, ok := ins.(*ssa.Call)
-		if !ok || cl.Call.StaticCallee() == nil || cl.Call.StaticCallee().Name() != "Wait" {
-			return
-		}
-		if cl.Call.Args[0] == fmGroup {
-			fmWait = cl
-		}
-		if cl.Call.Args[0] == repGroup {
-			repWait = cl
-		}
-	})
+	c.Check(repl.relabel["replicatorAToB"] && repl.relabel["replicatorBToA"], name, "relabel", c.Pos(gdi.Pos()), "a replicator's NOT_FOUND is reported as INTERNAL", "a replicator's NOT_FOUND is not relabelled INTERNAL: an inconsistent replica would look like a missing object")
 	n := 0
 	for _, r := range returnsOf(fn) {
 		if !isNilConst(r.Results[1]) {
 			continue
 		}
 		n++
-		ok := fmWait != nil && repWait != nil && dominatedByErrNil(r.Block(), fmWait) && dominatedByErrNil(r.Block(), repWait)
-		why := "FindMissing can answer successfully without having replicated the one-sided differences (the success return is not dominated by the nil result of the replication group's Wait)"
+		ok := find.guard != nil && repl.guard != nil && dominatedByErrNil(r.Block(), find.guard) && dominatedByErrNil(r.Block(), repl.guard)
+		why := "FindMissing can answer successfully without having replicated the one-sided differences (the success return is not dominated by the nil result of the replication stage)"
 		if ok {
 			ex, isEx := r.Results[0].(*ssa.Extract)
 			ok = isEx && ex.Tuple == ssa.Value(gdi) && ex.Index == 1
